@@ -51,6 +51,8 @@ type SpecDB struct {
 	Contracts map[string]*spec.FuncContract // key: pkgpath + "::" + name
 	Files     []*spec.File
 	ClausePkg map[*spec.Clause]string
+	Counters  map[string][]string // function key -> call-counter ghosts
+	OkCounters map[string][]string // function key -> success-counter ghosts
 }
 
 func newSpecDB() *SpecDB {
@@ -58,6 +60,7 @@ func newSpecDB() *SpecDB {
 		Sorts: map[string]bool{}, Consts: map[string]string{}, Ghosts: map[string]string{},
 		Funcs: map[string]*spec.SpecFunc{}, Contracts: map[string]*spec.FuncContract{},
 		AxiomPkg: map[*spec.Clause]string{}, ClausePkg: map[*spec.Clause]string{},
+		Counters: map[string][]string{}, OkCounters: map[string][]string{},
 	}
 }
 
@@ -74,6 +77,13 @@ func (db *SpecDB) add(f *spec.File) error {
 			db.GhostList = append(db.GhostList, g.Name)
 		}
 		db.Ghosts[g.Name] = g.Sort
+	}
+	for _, c := range f.Counters {
+		if c.OnOK {
+			db.OkCounters[c.Func] = append(db.OkCounters[c.Func], c.Ghost)
+		} else {
+			db.Counters[c.Func] = append(db.Counters[c.Func], c.Ghost)
+		}
 	}
 	for _, sf := range f.Funcs {
 		if _, dup := db.Funcs[sf.Name]; dup {
@@ -206,7 +216,7 @@ func Load(repoRoot string, pkgPaths []string, externalDir string) (*Program, err
 	sort.Slice(repoPkgs, func(i, j int) bool { return repoPkgs[i].PkgPath < repoPkgs[j].PkgPath })
 	for _, p := range repoPkgs {
 		for _, gf := range p.CompiledGoFiles {
-			if filepath.Base(gf) != "zz_verif_contracts.go" {
+			if !strings.HasPrefix(filepath.Base(gf), "zz_verif_contracts") {
 				continue
 			}
 			sf, err := spec.ParseFile(gf, p.PkgPath)
@@ -481,13 +491,18 @@ func (p *Program) ExpandAutoRules(u *Universe) {
 					c.Props = append(c.Props, pr)
 				}
 			}
+			for _, e := range rule.Requires {
+				if autoClauseApplies(e, f, c) {
+					c.Requires = append(c.Requires, e)
+				}
+			}
 			for _, e := range rule.Ensures {
-				if autoClauseApplies(e, f) {
+				if autoClauseApplies(e, f, c) {
 					c.Ensures = append(c.Ensures, e)
 				}
 			}
 			for _, e := range rule.Invs {
-				if autoClauseApplies(e, f) {
+				if autoClauseApplies(e, f, c) {
 					c.Invs = append(c.Invs, e)
 				}
 			}
@@ -544,7 +559,13 @@ func (p *Program) globalInitString(pkg, name string) (string, bool) {
 
 // autoClauseApplies: a template clause naming a parameter (e.g. ns) applies
 // only to functions that have a parameter or captured variable of that name.
-func autoClauseApplies(cl *spec.Clause, f *ssa.Function) bool {
+func autoClauseApplies(cl *spec.Clause, f *ssa.Function, c *spec.FuncContract) bool {
+	// `opt noauto label1 label2`: the function opts out of these template clauses
+	for _, l := range strings.Fields(c.Opts["noauto"]) {
+		if l == cl.Label {
+			return false
+		}
+	}
 	names := map[string]bool{}
 	for _, p := range f.Params {
 		names[p.Name()] = true
@@ -552,9 +573,12 @@ func autoClauseApplies(cl *spec.Clause, f *ssa.Function) bool {
 	for _, fv := range f.FreeVars {
 		names[fv.Name()] = true
 	}
-	text := cl.Expr.String()
-	for _, need := range []string{"ns"} {
-		if strings.Contains(text, "bid("+need+")") && !names[need] {
+	// a clause that speaks about the namespace parameter `ns` applies only to
+	// functions that have one
+	ids := map[string]bool{}
+	spec.Idents(cl.Expr, ids)
+	for _, need := range []string{"ns", "rec"} {
+		if ids[need] && !names[need] {
 			return false
 		}
 	}
